@@ -1,6 +1,6 @@
 (* C17 property theorems.  Statements + exact + Print Assumptions only. *)
 From ZV.Common Require Import Base.
-From ZV.C17 Require Import Spec Model ProofsSpec ProofsPage.
+From ZV.C17 Require Import Spec Model ProofsSpec ProofsPage ProofsLinks ProofsLru ProofsRefine.
 Open Scope N_scope.
 
 (* ---- S: the recency-list LRU map never exceeds its capacity, for every history ---- *)
@@ -10,6 +10,33 @@ Proof. intros cap ops l. exact (s_run_size cap ops l). Qed.
 Check spec_size_le_cap : forall cap ops l,
   1 <= cap -> nlen l <= cap -> nlen (fst (s_run cap l ops)) <= cap.
 Print Assumptions spec_size_le_cap.
+
+(* ---- M refines S: for every capacity and every get/put/remove/contains/clear/len history, the node-array
+        implementation of LruMap returns the same results and makes the same eviction-callback invocations
+        (same key, same value, same step) as the recency list, and the (key,value) sequence read along its
+        `next` links from `head` is the recency list ---- *)
+Theorem lru_refines : forall c ops,
+  1 <= c -> c < INVALID ->
+  snd (m_run (lru_new c) ops) = snd (s_run c [] ops) /\
+  abs_list (fst (m_run (lru_new c) ops)) = fst (s_run c [] ops).
+Proof. exact lru_refines_proof. Qed.
+Check lru_refines : forall c ops,
+  1 <= c -> c < INVALID ->
+  snd (m_run (lru_new c) ops) = snd (s_run c [] ops) /\
+  abs_list (fst (m_run (lru_new c) ops)) = fst (s_run c [] ops).
+Print Assumptions lru_refines.
+Example lru_refines_nontrivial :
+  snd (m_run (lru_new 2) [Put 1 10; Put 2 20; Get 1; Put 3 30; Get 2; Len]) =
+  [(RPut None, []); (RPut None, []); (RGet (Some 10), []); (RPut None, [(2, 20)]); (RGet None, []); (RLen 2, [])].
+Proof. vm_compute. reflexivity. Qed.
+
+(* the implementation's entry count never exceeds the capacity *)
+Theorem lru_size_le_cap : forall c ops,
+  1 <= c -> c < INVALID -> count (fst (m_run (lru_new c) ops)) <= c.
+Proof. exact lru_size_proof. Qed.
+Check lru_size_le_cap : forall c ops,
+  1 <= c -> c < INVALID -> count (fst (m_run (lru_new c) ops)) <= c.
+Print Assumptions lru_size_le_cap.
 
 (* ---- page cache: a read returns exactly the bytes of the file in the range, clipped at EOF,
         from every coherent cache state (after any evictions / reloads / invalidations), for every
